@@ -3,9 +3,12 @@
    the raw parse of each token list, exactly as C01.Run does (same argument
    order, so harness/props/llp_common.py:coq_case serves both).
    [Ctors]: constructor outcome only, for a batch of grammars over a common
-   terminal set (used by the exhaustive small-grammar sweep). *)
+   terminal set (used by the exhaustive small-grammar sweep).
+   Both also evaluate the hypotheses of the C03 theorems ([part1_okb]) on the
+   factorized grammar; the harness expects them to hold on every case.
+   No proofs in this file. *)
 From Coq Require Import ZArith List Bool.
-From AK Require Export LLP.Build.
+From AK Require Export LLP.Build C03.Spec.
 Import ListNotations.
 
 (* outcome of LLParser.__init__ as far as C03 is concerned: the pipeline of
@@ -14,24 +17,35 @@ Definition ctor_outcome (ug : list (sym * list (list sym))) (terminals : list sy
   bind (factorize ug terminals smart) (fun '(g, _) =>
     rec_check g (terminals ++ [END_TOKEN]) (nullables g)).
 
+(* the hypotheses [part1_ok] of the C03 theorems, evaluated on the factorized
+   grammar of the case at hand (true when the factorization itself failed:
+   then no theorem is applied) *)
+Definition hyps_ok (ug : list (sym * list (list sym))) (terminals : list sym) (smart : bool) (start : sym) : bool :=
+  match factorize ug terminals smart with
+  | Ok (g, _) => part1_okb g (terminals ++ [END_TOKEN]) start
+  | Err _ => true
+  end.
+
 Inductive case :=
 | Grammar (ug : list (sym * list (list sym))) (terminals : list sym) (smart : bool) (start : sym)
           (fuel : nat) (inputs : list (list (sym * list Z)))
-| Ctors (terminals : list sym) (gs : list (list (sym * list (list sym)) * bool)).
+| Ctors (terminals : list sym) (gs : list (list (sym * list (list sym)) * bool * sym)).
 
 Definition run (c : case) : sx :=
   match c with
   | Grammar ug terminals smart start fuel inputs =>
       match build ug terminals smart start with
-      | Err e => SL [SZ 1; SZ (err_code e)]
+      | Err e => SL [SZ 1; SZ (err_code e); sx_bool (hyps_ok ug terminals smart start)]
       | Ok p =>
-          SL [SZ 0; sx_bool (is_ambiguous (p_tables p));
+          SL [SZ 0; sx_bool (is_ambiguous (p_tables p)); sx_bool (hyps_ok ug terminals smart start);
               SL (map (fun inp => sx_res sx_tree (p_parse p fuel (mk_toks inp))) inputs)]
       end
   | Ctors terminals gs =>
-      SL (map (fun '(ug, smart) =>
-                 match ctor_outcome ug terminals smart with
-                 | Ok _ => SZ 0
-                 | Err e => SZ (err_code e)
-                 end) gs)
+      SL (map (fun '(ug, smart, start) =>
+                 if hyps_ok ug terminals smart start then
+                   match ctor_outcome ug terminals smart with
+                   | Ok _ => SZ 0
+                   | Err e => SZ (err_code e)
+                   end
+                 else SZ 99) gs)
   end.
